@@ -15,6 +15,12 @@
 #define	RETURN(_code)	do {						\
 		asn_dec_rval_t rval;					\
 		rval.code = _code;					\
+		if(_code == RC_WMORE) {					\
+			/* The chain of tags restarts as a whole: */	\
+			/* the lengths seen so far are not saved. */	\
+			rval.consumed = 0;				\
+			return rval;					\
+		}							\
 		if(opt_ctx) opt_ctx->step = step; /* Save context */	\
 		if(_code == RC_OK || opt_ctx)				\
 			rval.consumed = consumed_myself;		\
